@@ -224,6 +224,49 @@ def run_task(task):
     return res
 
 
+def explore_raw(hname, params, pre=None, max_paths=200000, canary=None, path_alarm=30.0):
+    """In-process enumeration of every path of a harness; yields (ctx, ex, outcome, status) per path.
+    `pre(ctx)` runs before the harness on each path (e.g. to assert a parameter cell)."""
+    h = resolve(hname)
+    env.import_votekit()
+    logic = h.meta.get("logic", "QF_NRA")
+    core.INT_BOUND[0] = h.meta.get("int_bound", 64)
+    core.FLOAT_POLICY["mix"] = h.meta.get("float_mix", "error")
+    world = env.World()
+    prefix = []
+    n = 0
+    while True:
+        ex = Explorer(prefix, logic=logic, max_branches=h.meta.get("max_branches", 4000))
+        core.CUR = ex
+        ctx = Ctx("sym", ex=ex, params=params)
+        ctx.path_index = n
+        ctx.canary = canary
+        ctx.prob = None
+        world.enter(ctx, extra=h.meta.get("extra"))
+        outcome, status = None, "ok"
+        try:
+            with contextlib.redirect_stdout(io.StringIO()):
+                if pre:
+                    pre(ctx)
+                outcome = _with_alarm(path_alarm, lambda: h(ctx))
+        except PathBudget:
+            status = "budget"
+        except Inconclusive as e:
+            status = "inconclusive:" + str(e)[:100]
+        except HarnessError as e:
+            status = "harness-error:" + repr(e)[:300]
+        except Exception as e:
+            status = "harness-error:" + "".join(traceback.format_exception(e))[-800:]
+        finally:
+            world.restore()
+            core.CUR = None
+        n += 1
+        yield ctx, ex, outcome, status
+        prefix = next_prefix(ex.decisions)
+        if prefix is None or n >= max_paths:
+            return
+
+
 def _kind(outcome, status):
     if status != "ok":
         return status
